@@ -409,9 +409,8 @@ Definition fmt_type (name : str) : Z := if str_eqb name s_see then 1 else if str
 
 (* ================================================================================================ *)
 (* Wire: run_case.  K = list Z (a pyuca sort key is a tuple of ints, the fallback key a str: both compare as
-   sequences of integers); ck, ud by table look-up; tx and src by the concrete rules below, which are valid for
-   the token alphabet the harness generates (characters, \textbf{..}/\emph{..}/\textit{..}, control symbols) and are
-   compared with the real .textContent / .source on every case. *)
+   sequences of integers); ck, ud, tx, src by table look-up.  tx_c / src_c below are the rules for the accent-free
+   part of the alphabet (used by the worked examples in Proofs/). *)
 Definition zs_eqb : list Z -> list Z -> bool := list_eqb Z.eqb.
 Definition zs_lt : list Z -> list Z -> bool := lex_lt Z.eqb Z.ltb.
 
@@ -443,44 +442,57 @@ Definition of_str (s : str) : val := VL (map VI s).
 Definition of_tok (t : tok) : val := VL [VI (fst t); of_str (snd t)].
 Definition of_toks (l : list tok) : val := VL (map of_tok l).
 
-Fixpoint of_node (n : node) : val :=
-  match n with
-  | Node k s pgs kids =>
-      VL [of_str (src_c k); of_str (tx_c k); of_str s;
-          VL (map (fun p : page => VL [VI (fst p); VI (snd p)]) pgs);
-          VL ((fix go (l : list node) : list val := match l with [] => [] | x :: l' => of_node x :: go l' end) kids)]
-  end.
+(* keys of the tx / src tables: an injective flattening of a token list *)
+Definition enc_toks (l : list tok) : list Z := concat (map (fun t : tok => fst t :: Z.of_nat (length (snd t)) :: snd t) l).
 
+Section Out.
+  Context (tx src : list tok -> str).
+  Fixpoint of_node (n : node) : val :=
+    match n with
+    | Node k s pgs kids =>
+        VL [of_str (src k); of_str (tx k); of_str s;
+            VL (map (fun p : page => VL [VI (fst p); VI (snd p)]) pgs);
+            VL ((fix go (l : list node) : list val := match l with [] => [] | x :: l' => of_node x :: go l' end) kids)]
+    end.
+End Out.
+
+(* tx and src by table look-up as well (tables computed by the harness rules for the generated token alphabet, which now
+   includes accent control sequences whose text is a composed character; the real .textContent / .source are compared on every
+   case); a missing entry yields the sentinel [-1], which no ck table contains, so the case is answered [-4] *)
 Definition run_case (v : val) : val :=
   match v with
-  | VL [VL ents; VI cols; VL ckt; VL udt; lets] =>
-      match mapM toks_of ents, mapM pair_of ckt, mapM cpair_of udt, getZs lets with
-      | Some ents, Some ckt, Some udt, Some lets =>
+  | VL [VL ents; VI cols; VL ckt; VL udt; lets; VL txt; VL srct] =>
+      match mapM toks_of ents, mapM pair_of ckt, mapM cpair_of udt, getZs lets, mapM pair_of txt, mapM pair_of srct with
+      | Some ents, Some ckt, Some udt, Some lets, Some txt, Some srct =>
           let ck := fun s => match lookup ckt s with Some k => k | None => [-1] end in
           let ud := fun c => match lookup udt [c] with Some u => u | None => [] end in
-          let es := map (fun p : nat * list tok => entry_of tx_c (Z.of_nat (fst p)) (snd p)) (combine (seq 0 (length ents)) ents) in
-          let needed := concat (map (fun e => e_sort e ++ map tx_c (e_key e)) es) in
+          let tx := fun l => match lookup txt (enc_toks l) with Some t => t | None => [-1] end in
+          let src := fun l => match lookup srct (enc_toks l) with Some t => t | None => [-1] end in
+          let es := map (fun p : nat * list tok => entry_of tx (Z.of_nat (fst p)) (snd p)) (combine (seq 0 (length ents)) ents) in
+          let needed := concat (map (fun e => e_sort e ++ map tx (e_key e)) es) in
           let needc := concat (map (fun e => match e_sort e with (c :: _) :: _ => [[c]] | _ => [] end) es) in
+          let needs := concat (map (fun e => map enc_toks (e_key e)) es) in
           if negb (forallb (fun s => match lookup ckt s with Some _ => true | None => false end) needed
-                   && forallb (fun c => match lookup udt c with Some _ => true | None => false end) needc)
+                   && forallb (fun c => match lookup udt c with Some _ => true | None => false end) needc
+                   && forallb (fun k => match lookup srct k with Some _ => true | None => false end) needs)
           then VL [VI (-4)]                                     (* a table entry is missing: harness error, never silently defaulted *)
           else
           let ents_out := VL (map (fun e => VL [VL (map of_toks (e_key e)); VL (map of_str (e_sort e));
                                                 match e_fmt e with None => VL [] | Some f => VL [of_toks f] end;
                                                 VI (e_type e)]) es) in
-          match digest ck zs_eqb zs_lt tx_c src_c es with
+          match digest ck zs_eqb zs_lt tx src es with
           | None => VL [ents_out; v_crash 1; VL []]
           | Some tree =>
               let items := combine (seq 0 (length tree)) tree in
               let g := groups ud lets (fun it : nat * node => node_sortkey (snd it)) (fun it => totallen (snd it)) items cols in
-              VL [ents_out; VL (map of_node tree);
+              VL [ents_out; VL (map (of_node tx src) tree);
                   match g with
                   | None => v_crash 2
                   | Some gs => VL (map (fun g : str * list (list (nat * node)) =>
                                           VL [of_str (fst g); VL (map (fun col => VL (map (fun it : nat * node => ofNat (fst it)) col)) (snd g))]) gs)
                   end]
           end
-      | _, _, _, _ => v_bad_input
+      | _, _, _, _, _, _ => v_bad_input
       end
   | _ => v_bad_input
   end.
